@@ -1,6 +1,7 @@
 """C09 — loop-level theorems + correspondence of Solver.solve with a scripted step oracle."""
 from ..gen import Gen
 from ..unit import run_unit
+from .. import camp_props
 from ..units.loop import Loop
 
 PROP_FILES = ["props/C09.v"]
@@ -11,3 +12,4 @@ def run(rep, tier, seed, scratch):
     g = Gen(seed)
     u = Loop()
     run_unit(rep, u, u.gen(g, tier), scratch)
+    camp_props.run_C09(rep, tier, seed)
